@@ -43,6 +43,20 @@ BUILT: dict[str, dict[str, str]] = {
         note="Trusts the Study API to report the trials (C01/C20 cover that); one study per calculator.",
         ref="DESIGN.md 3/C17",
     ),
+    "C01": dict(
+        technique="model-based property testing (Hypothesis): generated call histories by symbolic handles applied to a reference model of the BaseStorage docstrings and to eleven storage configurations; result / exception-class / full-state comparison after every step; delta-debugged replay",
+        category="exploration",
+        text="Generated-history differential against an executable contract model: every call's outcome and the complete readable state through every getter are compared on in-memory, SQLite, cached SQLite, journal (file with both locks, redis) and the gRPC proxy over five of them. Covers delete-then-recreate, writes after finish through every setter, templates carrying every field incl. NaN/inf, interleaved studies sharing an id space, dead and never-allocated ids. Absence of counterexamples in the explored region only.",
+        note="The model is my reading of the docstrings; inputs on which the contract is silent are excluded and counted (evidence: excluded_by_soundness). SQLite/fakeredis stand in for MySQL/PostgreSQL/Redis.",
+        ref="DESIGN.md 2.1, 3/C01",
+    ),
+    "C12": dict(
+        technique="property-based testing (Hypothesis): generated trial histories (ties, infinities, constraints, 1-4 objectives) on seven backends; best_trial/best_trials compared with a brute-force scan after every step",
+        category="exploration",
+        text="Generated-history search with a brute-force oracle (strictly-better scan for the single-objective case incl. the documented constraint fallback, O(n^2) dominance for the Pareto front), evaluated after every step on the incremental in-memory backend and at generated points on SQLite, journal and gRPC-proxied backends. Absence of counterexamples in the explored region only.",
+        note="Ties are free; the documented 'undefined' case (best-valued trial without constraint values in a constrained study) only has to satisfy the unconstrained clause.",
+        ref="DESIGN.md 3/C12",
+    ),
 }
 
 NOT_YET: dict[str, str] = {}
